@@ -542,6 +542,37 @@ def replay_canonical(res):
     return out.startswith("NONCANONICAL")
 
 
+def ob_decode_memory(which, checked):
+    """decode of EVERY byte string of the encoding's length, validating or not: every load stays inside the `size` bytes of the encoding and every
+    store inside the point object (the interpreter checks each access; untrusted flag bits must not select a code path that reads a longer encoding)"""
+    P = prog()
+    deg, comp, size = CFG[which]
+    enc, dec = fnames(P, which)
+    I = eir.Interp(P)
+    F = FieldModel()
+    install(I, F)
+    bs = [z3.BitVec("b%d" % i, 8) for i in range(size)]
+    base_ax = list(F.axioms)
+
+    def once():
+        del F.axioms[len(base_ax):]
+        del F.seen_sq[:]
+        del F.seen_sqrt[:]
+        del I.insub_calls[:]
+        buf = Obj("buf", size, "arg", 1, True)
+        for i in range(size):
+            buf.cells[i] = (1, bs[i])
+        out = Obj("out", 2 * 48 * deg + 16, "arg", 16)
+        return I.call_named(dec, [Ptr(buf, 0), Ptr(out, 0), int(checked)])
+    n = 0
+    for path, ret in I.explore(once, 4096):
+        n += 1
+    if n < 2:
+        raise Inconclusive("only %d path(s) through decode" % n)
+    return {"queries": getattr(I, "vc_count", 0), "paths": n, "functions": [P.demangled[dec][:90]],
+            "sample": "%d paths over all %d-byte strings, checked=%d: no access outside the encoding or the point object" % (n, size, checked)}
+
+
 def ob_subgroup_test(deg):
     """Affine::is_in_correct_subgroup_assuming_on_curve is 'multiply_doubleadd_restrict(*this, r) is the identity': exactly one scalar multiplication, by the
     generic double-and-add (proved [k]P on every curve point by C06 loop:doubleadd), of *this, by the 256-bit constant r over all 256 bits, followed by
@@ -588,6 +619,7 @@ def register(chk):
             chk.add("roundtrip:%s:checked=%d:point" % (which, checked), ob_roundtrip, which, checked, False)
             chk.add("roundtrip:%s:checked=%d:identity" % (which, checked), ob_roundtrip, which, checked, True)
         chk.add("canonical:%s" % which, ob_canonical, which)
+        chk.add("decode-memory:%s:checked=0" % which, ob_decode_memory, which, False)
 
 
 def include_in(chk):
